@@ -22,6 +22,7 @@ type Features struct {
 	InexactSinks bool                     // inexact float builtins / division stored into sinks
 	Hostile      bool                     // C15: hostile float operands for conversions; single invocation
 	HostileIdx   bool                     // C15: unguarded (possibly out-of-range) indices
+	Overrides    bool                     // C14: pipeline-overridable constants
 	Off          func(tag string) bool    // construct excluded (known finding)
 	ConstOK      func(e Expr) bool        // strict constant-expression check (set by wref to avoid an import cycle)
 }
@@ -42,6 +43,8 @@ type ExecCase struct {
 	Buffers map[[2]int][]byte
 	NumWG   [3]uint32
 	Classes []string
+	// Overrides lists the override declarations of the module (C14).
+	Overrides []*Var
 }
 
 type scopeVar struct {
@@ -80,6 +83,7 @@ type gen struct {
 	outFzSlot func() Expr
 	outAt     *Var
 	hostileF  *Var // C15: read-only buffer of hostile floats, used only as conversion operands
+	overrides []*Var
 	atomOp    map[int]string // multi-invocation: the one (commutative) operation used on each atomic location
 	noNeg     bool // literals must be non-negative (guard for tag private-init.unary)
 	noMustUse bool // no calls of @must_use functions (guard for tag must_use.call-arg)
@@ -384,13 +388,21 @@ func (g *gen) indexExpr(base Expr, n int, depth int) Expr {
 		return &Lit{T: TU32, Bits: uint32(i)}
 	}
 	g.class("index:dynamic")
+	inner := func(t *Type) Expr {
+		e := g.expr(t, depth-1)
+		if g.f.Overrides && g.inConst == 0 && len(g.inputs) > 0 && !IsConstExpr(e) && IsOverrideExpr(e) && g.f.off("override.fold.unsupported-op") {
+			// open finding C14-3: `ov % n` / min / clamp over overrides is folded by an evaluator that only knows + - * /
+			return g.runtimeLeaf(t.S)
+		}
+		return e
+	}
 	switch g.intn(3, "dynidx") {
 	case 0:
-		return &Binary{Op: "%", L: g.expr(TU32, depth-1), R: &Lit{T: TU32, Bits: uint32(n)}, T: TU32}
+		return &Binary{Op: "%", L: inner(TU32), R: &Lit{T: TU32, Bits: uint32(n)}, T: TU32}
 	case 1:
-		return &Builtin{Name: "min", Args: []Expr{g.expr(TU32, depth-1), &Lit{T: TU32, Bits: uint32(n - 1)}}, T: TU32}
+		return &Builtin{Name: "min", Args: []Expr{inner(TU32), &Lit{T: TU32, Bits: uint32(n - 1)}}, T: TU32}
 	default:
-		return &Builtin{Name: "clamp", Args: []Expr{g.expr(TI32, depth-1), &Lit{T: TI32, Bits: 0}, &Lit{T: TI32, Bits: uint32(n - 1)}}, T: TI32}
+		return &Builtin{Name: "clamp", Args: []Expr{inner(TI32), &Lit{T: TI32, Bits: 0}, &Lit{T: TI32, Bits: uint32(n - 1)}}, T: TI32}
 	}
 }
 
@@ -406,6 +418,12 @@ func (g *gen) readableRoots() []Expr {
 	}
 	for _, v := range g.consts {
 		roots = append(roots, &VarRef{v})
+	}
+	if g.inConst == 0 {
+		for _, v := range g.overrides {
+			// overrides are weighted: they are what C14 is about
+			roots = append(roots, &VarRef{v}, &VarRef{v})
+		}
 	}
 	for _, sv := range g.visible() {
 		if sv.v.T.K == TPtr {
@@ -473,6 +491,11 @@ func (g *gen) pathsTo(roots []Expr, want func(*Type) bool) []pathCand {
 		// storage value that contains an array of structures or of arrays calls
 		// Construct<element> helpers the HLSL writer never emits.
 		if rv := RootVar(c.root); rv != nil && rv.Kind == VStorage && hasArrayOfStruct(c.t) && g.f.off("storage-load.array-of-struct") {
+			continue
+		}
+		// Known finding (tag struct-value.vec3i-member, MSL C04-7): a vec3<i32> member read from a by-value
+		// struct is used as packed_int3 inside as_type<uint3>(...) by the wrapping arithmetic.
+		if n := len(c.steps); n >= 1 && c.steps[n-1].kind == 0 && c.t.K == TVec && c.t.N == 3 && c.t.S == I32 && !IsRef(c.root) && g.f.off("struct-value.vec3i-member") {
 			continue
 		}
 		keep = append(keep, c)
@@ -681,6 +704,22 @@ func IsConstExpr(e Expr) bool {
 // division by zero, overflow, over-wide shift …); otherwise operand `slot`
 // is replaced by a run-time value through fix.
 func (g *gen) guardConst(e Expr, fix func()) Expr {
+	if g.f.Overrides && g.inConst == 0 && len(g.inputs) > 0 && !IsConstExpr(e) && IsOverrideExpr(e) && g.f.off("override.fold.unsupported-op") {
+		// open finding C14-3: override resolution folds such expressions with an
+		// evaluator that only knows + - * /
+		simple := false
+		if b, ok := e.(*Binary); ok {
+			switch b.Op {
+			case "+", "-", "*", "/":
+				simple = true
+			}
+		}
+		if !simple {
+			fix()
+			g.class("override-fold:made-runtime")
+			return e
+		}
+	}
 	if !IsConstExpr(e) {
 		// (known finding C05-17: naga folds through lets bound to module constants, but only + - * /
 		// are implemented there; every other binary operator folds to a zero literal)
@@ -726,6 +765,44 @@ func refsNamedConst(e Expr) bool {
 func (g *gen) foldableConst(e Expr) bool {
 	if v, ok := e.(*VarRef); ok && v.V.Kind == VLet && v.V.Init != nil {
 		return IsConstExpr(v.V.Init) || g.foldableConst(v.V.Init)
+	}
+	return false
+}
+
+// IsOverrideExpr reports whether e is an override-expression: built from
+// literals, constants and overrides only (so that override resolution can
+// evaluate it).
+func IsOverrideExpr(e Expr) bool {
+	switch x := e.(type) {
+	case *Lit:
+		return true
+	case *Paren:
+		return IsOverrideExpr(x.X)
+	case *VarRef:
+		return x.V.Kind == VConst || x.V.Kind == VOverride || (x.V.Kind == VLet && x.V.Init != nil && IsOverrideExpr(x.V.Init))
+	case *Unary:
+		return IsOverrideExpr(x.X)
+	case *Binary:
+		return IsOverrideExpr(x.L) && IsOverrideExpr(x.R)
+	case *Construct:
+		for _, a := range x.Args {
+			if !IsOverrideExpr(a) {
+				return false
+			}
+		}
+		return true
+	case *Swizzle:
+		return IsOverrideExpr(x.X)
+	case *Builtin:
+		if x.Name == "arrayLength" || len(x.Name) > 6 && x.Name[:6] == "atomic" {
+			return false
+		}
+		for _, a := range x.Args {
+			if !IsOverrideExpr(a) {
+				return false
+			}
+		}
+		return true
 	}
 	return false
 }
